@@ -6,24 +6,56 @@ def run(ctx):
     if ctx.replay:
         return rerun(ctx)
     # 1. exhaustive model check: three concurrent sessions (honest dialer, attacker's node, self-connection), the attacker chooses every deliverable signature message
-    consts = {"MaxOps": 9}
+    #    plus a connection opened by the attacker with a recorded SecureRequest (transcript replay, session 4)
+    consts = {"MaxOps": 11}
     if ctx.quick():
         consts.update({"SigForms": '{"full", "rflip", "empty"}', "PkForms": '{"comp", "bad"}'})
+    else:
+        # all four sessions with 4 x 3 encodings; all 7 x 3 encodings with sessions 1, 2 and the replayed connection
+        consts.update({"SigForms": '{"full", "nov", "rflip", "empty"}'})
     r = ctx.model_check("net", "MC_Handshake", "MC_Handshake.cfg", constants=consts, coverage=True,
                         timeout=ctx.pick(600, 3000))
-    ctx.check_coverage(r, ["Start", "ToAcceptor", "ToDialer"])
+    ctx.check_coverage(r, ["Start", "ReplayTranscript", "ToAcceptor", "ToDialer"])
+    if not ctx.quick():
+        r2 = ctx.model_check("net", "MC_Handshake", "MC_Handshake.cfg", constants={"MaxOps": 8, "Sessions": "{1, 2, 4}"},
+                             coverage=True, timeout=3000, label="all encodings")
+        ctx.check_coverage(r2, ["Start", "ReplayTranscript", "ToAcceptor", "ToDialer"])
     ctx.exhaustive = True
     # 2. behaviours: every run of <= 3 events (all single deliveries after one or two key exchanges) + random walks
-    bs = ctx.behaviours("net", "Gen_Handshake", "Gen_Handshake.cfg", constants={"MaxOps": 3, "Depth": 3, "Sessions": "{1, 2}"}, timeout=900)
-    walks = ctx.behaviours("net", "Gen_Handshake", "Gen_Handshake.cfg", constants={"MaxOps": 9, "Depth": 9},
-                           simulate="num=%d" % ctx.pick(1500, 12000), depth=11, seed=ctx.seed, timeout=1500)
+    #    (quick: 4 of the 7 signature encodings and 2 of the 3 key encodings in the BFS part; the walks use all)
+    red = {} if not ctx.quick() else {"SigForms": '{"full", "nov", "rflip", "empty"}', "PkForms": '{"comp", "bad"}'}
+    bs = ctx.behaviours("net", "Gen_Handshake", "Gen_Handshake.cfg",
+                        constants=dict({"MaxOps": 3, "Depth": 3, "Sessions": "{1, 2}"}, **red), timeout=900)
+    # every message the attacker can deliver on a connection opened by replaying a's recorded SecureRequest
+    tx = ctx.behaviours("net", "Gen_Handshake", "Gen_Handshake.cfg",
+                        constants=dict({"MaxOps": 3, "Depth": 3, "Sessions": "{1, 4}"}, **red), timeout=900)
+    tx = [b for b in tx if any(st["op"] == "replaytx" for st in b)]
+    bs = bs + tx
+    walks = ctx.behaviours("net", "Gen_Handshake", "Gen_Handshake.cfg", constants={"MaxOps": 11, "Depth": 11},
+                           simulate="num=%d" % ctx.pick(500, 5000), depth=13, seed=ctx.seed, timeout=1500)
     allb = bs + walks
     # vacuity guard on the generated cases: every verdict class of the spec must occur
     seen = {st["res"] for b in allb for st in b}
     missing = {"accept", "error:pubkey", "error:sigparse", "error:verify", "error:self", "error:remote"} - seen
+    from vlib import MachineryError
     if missing:
-        from vlib import MachineryError
         raise MachineryError("vacuity: verdict classes never generated: %s" % sorted(missing))
+    # ... and the whole-transcript replay must be generated: a replayed SecureRequest followed by the recorded,
+    # intact SignatureRequest of the same session on the new connection (predicted: error:verify)
+    def full_replay(b):
+        for i, st in enumerate(b):
+            if st["op"] == "replaytx":
+                for nx in b[i + 1:]:
+                    if (nx["op"] == "toacc" and nx["s"] == st["s"] and nx["sc"] == st["sc"] and nx["sw"] == st["sw"]
+                            and nx["pkw"] == st["sw"] and nx["pkf"] != "bad" and nx["sf"] == "full"):
+                        if nx["res"] != "error:verify":
+                            raise MachineryError("spec predicts %s for a replayed transcript" % nx["res"])
+                        return True
+        return False
+    nfull = sum(1 for b in allb if full_replay(b))
+    if nfull < 2:
+        raise MachineryError("vacuity: transcript replay generated only %d times" % nfull)
+    ctx.notes.append("whole-transcript replays generated: %d" % nfull)
     inp = ctx.path("in", "behaviours.ndjson")
     with open(inp, "w") as fh:
         for b in allb:
@@ -37,10 +69,11 @@ def run(ctx):
         rule="a behaviour = TLC-generated run of up to three handshake sessions against one acceptor (key exchanges, then "
              "signature messages chosen by the network attacker among everything it can construct: genuine, replayed, "
              "spliced from the other session, with other public keys, with damaged encodings): all runs of <=3 events "
-             "(sessions 1, 2) by BFS + %d random walks of <=9 events (sessions 1-3); distinct by its event sequence; non-trivial if a signature "
+             "(sessions 1, 2) and all deliveries on a connection opened by transcript replay, by BFS + %d random walks of <=11 events (sessions 1-4); distinct by its event sequence; non-trivial if a signature "
              "message is delivered" % len(walks),
         assumptions=["secp256k1 ECDSA, SHA3, ECDH(P-256) and HKDF are trusted primitives (symbolic in the spec)",
-                     "the attacker knows only the session secret of its own session and cannot sign with other keys",
+                     "the attacker knows only the session secret of its own session and cannot sign with other keys; it can replay "
+                     "recorded SecureRequest bytes on new connections but does not hold the private ephemeral key behind them",
                      "the recovery byte V is not covered by Signature.Verify: signatures without V or with a flipped V "
                      "are still signatures by that key over that secret and are accepted (modelled so)",
                      "handlers are driven synchronously (one message at a time per connection); the TLS secure suite "
